@@ -125,11 +125,13 @@ def recover_events(ctx):
                 try:
                     k = pgpy.PGPKey.from_blob(kblob)[0]
                     e['loaded_protected'] = bool(k.is_protected and not k.is_unlocked)
-                    try:
-                        with k.unlock('wrong pass'):
-                            e['wrong_refused'] = False
-                    except Exception:
-                        e['wrong_refused'] = not k.is_unlocked
+                    e['wrong_refused'] = True
+                    for wrong in ('wrong pass', 'foreign pass ✓\n', 'foreign pass ✓ ', 'foreign pass \u2713'[:-1], ' foreign pass ✓', 'Foreign pass ✓', 'foreign pass ✓\r\n'):
+                        try:
+                            with k.unlock(wrong):
+                                e['wrong_refused'] = False
+                        except Exception:
+                            e['wrong_refused'] = e['wrong_refused'] and not k.is_unlocked
                     with k.unlock('foreign pass ✓'):
                         s = k.sign('foreign text', created=K.ts(K.T0 + 3))
                         e['sign_ok'] = bool(pub.verify('foreign text', s))
